@@ -56,6 +56,18 @@ func OverlayForN(bt *btree.T, nlayers int) *Overlay {
 	return &Overlay{bt: bt, layers: layers}
 }
 
+// WithNlayers returns an overlay with the same btree and n empty layers.
+// It is used when adding a newly built index to an existing table.
+// The new index must have the same number of layers as the other indexes
+// when it is added, which may not be the same as when it was built.
+func (ov *Overlay) WithNlayers(n int) *Overlay {
+	assert.That(ov.mut == nil)
+	for _, layer := range ov.layers {
+		assert.That(layer.Len() == 0)
+	}
+	return OverlayForN(ov.bt, n)
+}
+
 func (ov *Overlay) Nlayers() int {
 	return len(ov.layers)
 }
